@@ -112,7 +112,7 @@ impl Part for WirePart {
         "2..3 clients sharing a pool of 1..2 connections (transaction mode, or session mode with a connection each); start-up packets with 0..3 of the five tracked parameters (both spellings of TimeZone/DateStyle); per client 1..6 operations over {tagged statement, SET tracked outside a transaction, SET untracked, BEGIN; SET tracked; statement; COMMIT|ROLLBACK, RESET tracked} in a generated interleaving; application_name values include quotes, doubled quotes, backslashes, ';', '--', comment and dollar-quote openers, non-ASCII. Oracle (evaluated on the mock backend's GUC table at every tagged statement): the five tracked parameters equal what the issuing client was last told in ParameterStatus (checked against its own start-up values too), and in transaction mode no untracked value set by anybody is visible. Non-trivial = a value containing a quote/backslash/non-ASCII, or two clients holding different values of one parameter on one connection".into()
     }
     fn cases(&self, tier: Tier) -> u64 {
-        tier.pick(400, 12_000)
+        tier.pick(1_600, 24_000)
     }
     fn strategy(&self, _tier: Tier) -> BoxedStrategy<Case> {
         (1u8..=2, prop::bool::weighted(0.2), prop::collection::vec(client_strategy(), 2..4), prop::collection::vec(any::<u16>(), 4..24))
